@@ -393,9 +393,11 @@ Route(S, n, i, f) ==
                      LET sh == ShortestOf(S, nr.dests, nr.t = "lb")
                      IN IF nr.tie = "order" THEN pick(S, {sh[1]}) ELSE pick(S, Range(sh))
                   ELSE \* cycle: position kept in the router object (S.rt)
-                     LET pos == S.rt[c.cls][n]
+                     \* (a routing object given to several classes is one object: they share the position)
+                     LET key == IF r.same # 0 THEN r.same ELSE c.cls
+                         pos == S.rt[key][n]
                          d == nr.cyc[(pos % Len(nr.cyc)) + 1]
-                     IN pick([S EXCEPT !.rt[c.cls][n] = pos + 1], {d})
+                     IN pick([S EXCEPT !.rt[key][n] = pos + 1], {d})
        ELSE IF r.kind = "pb" THEN
           IF f = 2 THEN pick(S, {EXIT})
           ELSE IF c.route = <<>> THEN pick(S, {EXIT})
